@@ -810,6 +810,7 @@ def run(ctx: Ctx):
     from translator import c19 as tr
 
     ctx.trusted += TRUSTED
+    ctx.max_reported = 8
     ctx.assumptions += [
         "os.mkdir is atomic: one mkdir attempt is one step of the interleaving semantics",
         "an explicit refusal (NotImplementedError for hdf/txt/csv/png in save_to_files, FileExistsError) is not "
@@ -854,14 +855,26 @@ def finish_cov(ctx, by_kind, mism):
 
 
 def record(ctx: Ctx, mism, viols):
-    viols = sorted(viols, key=lambda v: size_of(v.case))     # smallest failing case first per signature
-    ctx.violations += viols
+    ctx.violations += order_violations(viols)
     (ctx.build / "mismatches.json").write_text(json.dumps([dict(case=c, observed=o) for c, o in mism], indent=1))
     for c, o in mism[:20]:
         ctx.broken.append(Broken("correspondence", "Model/Outputs.v vs implementation",
                                  f"model and implementation differ on a {c['kind']} case"
                                  + (f" ({c['mode']})" if c["kind"] in ("flow", "hist") else ""),
                                  dict(case=c, observed=o)))
+
+
+def order_violations(viols):
+    """Smallest failing case first; one representative of every kind of failure (clause, mode, cause, lazy or
+    not) before further signatures of a kind already shown (core prints a bounded number of signatures)."""
+    viols = sorted(viols, key=lambda v: size_of(v.case))
+    first, rest, seen = [], [], set()
+    for v in viols:
+        k = (v.clause, v.sig.get("mode"), v.sig.get("cause"), v.sig.get("writer"), v.sig.get("deferred"),
+             v.sig.get("how"))
+        (rest if k in seen else first).append(v)
+        seen.add(k)
+    return first + rest
 
 
 def new_violations(ctx: Ctx):
@@ -879,7 +892,7 @@ def search(ctx: Ctx):
                           prefixes=["", "", ""]))
     by_kind, mism, viols = evaluate(ctx, cases, "s")
     account(ctx, by_kind)
-    ctx.violations += sorted(viols, key=lambda v: size_of(v.case))
+    ctx.violations += order_violations(viols)
     ctx.cov["search_cases"] = sum(len(v) for v in by_kind.values())
     ctx.cov["distinct_nontrivial"] = len(ctx.cov.get("_seen", ()))
 
